@@ -200,6 +200,31 @@ def gen_case(seed):
                 if e["ah"]:
                     # (lowered-limits resumption: this client must not send anything under the remembered limits)
                     script[-1]["after_handshake"] = True
+    r7 = random.Random("c06-reset-finished/%s" % seed)
+    if r7.random() < 0.05:
+        # directed: a request/response on one bidirectional stream completes; the acknowledgements of the side that got
+        # the last FIN are lost for a while, so that side has forgotten the stream while its peer still holds it — and its
+        # application, which cannot know, aborts the stream it has in fact just finished
+        for k in ("resume", "resume_forget", "retry", "frontend_vn"):
+            opts.pop(k, None)
+        if opts.get("versions_server") == ["v1"]:
+            opts.pop("versions_server")
+        for side in ("client", "server"):
+            opts["max_data_" + side] = opts["max_stream_data_" + side] = 1048576
+            opts["max_streams_bidi_" + side] = opts["max_streams_uni_" + side] = 128
+        for k in [k for k in opts if k.startswith("msd_")]:
+            opts.pop(k)
+        a = r7.choice(["client", "server"])
+        b = "server" if a == "client" else "client"
+        sid = 0 if a == "client" else 1
+        d = r7.choice([0.01, 0.02])
+        t0 = 0.5
+        t_ans = t0 + 4 * d
+        fates = {"delay": d, "adv_seconds": t_ans + 3.0, "adv_dgrams": 10**6, "loss": 0.0,
+                 "blackouts": [[t_ans + d / 2, t_ans + 2.0, "c2s" if a == "client" else "s2c"]]}
+        script = [{"t": t0, "side": a, "op": "write", "sid": sid, "n": r7.choice([1, 1000]), "fin": True},
+                  {"t": round(t_ans, 4), "side": b, "op": "write", "sid": sid, "n": r7.choice([1, 500]), "fin": True},
+                  {"t": round(t_ans + r7.choice([0.3, 0.8]), 4), "side": a, "op": "reset", "sid": sid, "code": 8}]
     script.sort(key=lambda o: o["t"])
     return {"seed": seed, "opts": opts, "fates": fates, "script": script, "horizon": fates["adv_seconds"] + 150.0}
 
